@@ -36,6 +36,18 @@ class SimClock:
         return self.now
 
 
+class SimEIO(OSError):
+    injected = True
+
+
+class SimClosed(ValueError):
+    injected = True
+
+
+class SimEPIPE(BrokenPipeError):
+    injected = True
+
+
 class SimStream:
     """Simulated stderr. Fault plan: list of {at_write, kind} with kind in
     eio | closed | epipe | short. Faults are sticky from at_write on for
@@ -57,11 +69,11 @@ class SimStream:
     def _raise(self, kind):
         self.fired[kind] = self.fired.get(kind, 0) + 1
         if kind == "eio":
-            raise OSError(errno.EIO, "simulated I/O error")
+            raise SimEIO(errno.EIO, "simulated I/O error")
         if kind == "closed":
-            raise ValueError("I/O operation on closed file.")
+            raise SimClosed("I/O operation on closed file.")
         if kind == "epipe":
-            raise BrokenPipeError(errno.EPIPE, "simulated broken pipe")
+            raise SimEPIPE(errno.EPIPE, "simulated broken pipe")
         raise AssertionError(kind)
 
     def write(self, s):
